@@ -658,6 +658,11 @@ class Gen:
         bb0, bb1 = toks[g_body_lo].start, toks[g_body_hi].end
         body = sf.text[bb0:bb1]
         body_line0 = sf.line_of(bb0)
+        used_rewrites = set()
+        for n, (rule, a, b) in enumerate(rewrites):
+            if a in body:
+                body = body.replace(a, b)
+                used_rewrites.add(n)
         desug = [c for c in (fs.clauses if fs else []) if c["kind"] == "desugar"]
         if desug:
             body = desugar_for_loops(body, desug, qual)
@@ -749,15 +754,10 @@ class Gen:
         # emit
         pending = ""     # partial source line not yet emitted
         pend_byte = None
-        used_rewrites = set()
         for seg in segs:
             if seg[0] == "src":
                 t = seg[1]
                 t = apply_R1(t)
-                for n, (rule, a, b) in enumerate(rewrites):
-                    if a in t:
-                        t = t.replace(a, b)
-                        used_rewrites.add(n)
                 if pend_byte is None:
                     pend_byte = seg[2]
                 pending += t
